@@ -20,6 +20,8 @@
 #include <nop/utility/buffer_reader.h>
 #include <nop/utility/buffer_writer.h>
 
+#include <memory>
+
 #include "ops.h"
 
 namespace vf {
@@ -27,6 +29,7 @@ namespace { struct TlTable; struct TlStruct; struct TlLbuf; }
 }
 namespace vf {
 void RunRpcCalls(const std::string& iface, const Json& calls, JsonOut& o);
+void RunIoCommand(const Json& cmd, JsonOut& o);
 namespace {
 
 // same shapes as the pool types "TA", "SA", "SL2" (their schemas are looked up by these ids)
@@ -60,6 +63,8 @@ struct Step {
 template <typename TL, typename V>
 int TlOp(const std::string& op, int val) {
   if (op == "init") { TL h(static_cast<V>(val)); return static_cast<int>(h.Get()); }
+  // a handle constructed without arguments leaves an empty slot empty; Initialize() then applies the same rule
+  if (op == "initialize") { TL h; h.Initialize(static_cast<V>(val)); return static_cast<int>(h.Get()); }
   if (op == "set") { TL h(static_cast<V>(val)); h.Get() = static_cast<V>(val); return static_cast<int>(h.Get()); }
   if (op == "clear") { TL h(static_cast<V>(0)); h.Clear(); return -1; }
   return -1;
@@ -75,22 +80,52 @@ int RunTl(const std::string& op, int slot, int val) {
   }
 }
 
-// One codec round trip on objects owned by the calling thread; the k-th variation.
+// One codec round trip on objects owned by the calling thread; the k-th variation. |g_form| selects how the
+// Serializer / Deserializer hold their writer / reader: 0 by value, 1 by pointer, 2 by std::unique_ptr
+// (base/serializer.h has one specialization for each).
+thread_local int g_form = 0;
 template <typename T>
 void RoundTrip(const char* tid, const T& v, std::string* extra) {
   uint8_t buf[512];
-  nop::Serializer<nop::BufferWriter> ser{buf, sizeof buf};
-  auto st = ser.Write(v);
-  const size_t n = ser.writer().size();
-  nop::Deserializer<nop::BufferReader> des{buf, n};
+  nop::Status<void> st, st2;
+  size_t n = 0, size = 0, used = 0;
   T back{};
-  auto st2 = des.Read(&back);
+  if (g_form == 1) {
+    nop::BufferWriter w{buf, sizeof buf};
+    nop::Serializer<nop::BufferWriter*> ser{&w};
+    size = ser.GetSize(v);
+    st = ser.Write(v);
+    n = w.size();
+    nop::BufferReader r{buf, n};
+    nop::Deserializer<nop::BufferReader*> des{&r};
+    st2 = des.Read(&back);
+    used = n - r.remaining();
+  } else if (g_form == 2) {
+    nop::Serializer<std::unique_ptr<nop::BufferWriter>> ser{std::make_unique<nop::BufferWriter>(buf, sizeof buf)};
+    size = ser.GetSize(v);
+    st = ser.Write(v);
+    n = ser.writer().size();
+    nop::Deserializer<std::unique_ptr<nop::BufferReader>> des{std::make_unique<nop::BufferReader>(buf, n)};
+    st2 = des.Read(&back);
+    used = n - des.reader().remaining();
+  } else {
+    nop::Serializer<nop::BufferWriter> ser{buf, sizeof buf};
+    size = ser.GetSize(v);
+    st = ser.Write(v);
+    n = ser.writer().size();
+    nop::Deserializer<nop::BufferReader> des{buf, n};
+    st2 = des.Read(&back);
+    used = n - des.reader().remaining();
+  }
   JsonOut o;
   o.kv_str("tid", tid);
+  o.kv_num("form", g_form);
   o.key("v"); Abs<T>::to(v, o);
   o.kv_num("st", Code(st));
+  o.kv_num("size", static_cast<long long>(size));
   o.key("bytes"); o.bytes(buf, n);
   o.kv_num("st2", Code(st2));
+  o.kv_num("used", static_cast<long long>(used));
   o.key("v2"); Abs<T>::to(back, o);
   *extra = o.s;
 }
@@ -109,6 +144,7 @@ template <> struct Abs<TlLbuf, void> {
 };
 namespace {
 void RunCodec(int t, int k, std::string* extra) {
+  g_form = (k / 12 + t) % 3;
   switch (k % 12) {
     case 4: { std::map<std::uint32_t, std::string> m; for (int i = 0; i < 1 + (k % 3); i++) m[static_cast<std::uint32_t>(1000 * t + i)] = std::string(static_cast<size_t>(i + 1), static_cast<char>('A' + t)); RoundTrip<std::map<std::uint32_t, std::string>>("map<u32,str8>", m, extra); return; }
     case 5: { TlTable tb; tb.e0 = static_cast<std::uint8_t>(200 + t); if (k % 2) tb.e1 = std::string("e") + static_cast<char>('0' + t); RoundTrip<TlTable>("TA", tb, extra); return; }
@@ -133,6 +169,14 @@ void RunRpcStep(const Json& opj, std::string* extra) {
   JsonOut o;
   o.kv_str("iface", opj.at("iface").s);
   RunRpcCalls(opj.at("iface").s, opj.at("calls"), o);
+  *extra = o.s;
+}
+
+// One sequence of primitive reader / writer calls on an object owned by the calling thread (padding values differ
+// between threads: a writer must produce its own padding whatever other threads are writing).
+void RunIoStep(const Json& opj, std::string* extra) {
+  JsonOut o;
+  RunIoCommand(opj.at("cmd"), o);
   *extra = o.s;
 }
 
@@ -170,6 +214,7 @@ void CmdTl(const Json& cmd, JsonOut& o) {
           Step s{t, opj.at("op").s, static_cast<int>(opj.at("slot").num()), static_cast<int>(opj.at("val").num()), -1, ""};
           if (s.op == "codec") RunCodec(t, static_cast<int>(turn), &s.extra);
           else if (s.op == "rpc") RunRpcStep(opj, &s.extra);
+          else if (s.op == "io") RunIoStep(opj, &s.extra);
           else s.obs = RunTl(s.op, s.slot, s.val);
           log.push_back(s);
           turn++;
@@ -196,6 +241,7 @@ void CmdTl(const Json& cmd, JsonOut& o) {
           Step s{t, opj.at("op").s, static_cast<int>(opj.at("slot").num()), static_cast<int>(opj.at("val").num()), -1, ""};
           if (s.op == "codec") RunCodec(t, k, &s.extra);
           else if (s.op == "rpc") RunRpcStep(opj, &s.extra);
+          else if (s.op == "io") RunIoStep(opj, &s.extra);
           else s.obs = RunTl(s.op, s.slot, s.val);
           logs[static_cast<size_t>(t)].push_back(s);
           k++;
@@ -215,7 +261,26 @@ void CmdTl(const Json& cmd, JsonOut& o) {
   }
 }
 
-CommandRegistrar r_tl("tl", CmdTl);
+// {"c":"forms","n":N}: the codec round trips of RunCodec for k = 0..N-1 in every Serializer / Deserializer form,
+// on the main thread (C01 / C03 / C06: the three specializations must behave alike).
+void CmdForms(const Json& cmd, JsonOut& o) {
+  const int n = static_cast<int>(cmd.at("n").num(36));
+  o.kv_str("e", "FORMS");
+  o.key("steps");
+  o.begin_arr();
+  for (int t = 0; t < 3; t++) {
+    for (int k = 0; k < n; k++) {
+      std::string extra;
+      RunCodec(t, k, &extra);
+      o.begin_obj();
+      o.s += extra;
+      o.end_obj();
+    }
+  }
+  o.end_arr();
+}
+
+CommandRegistrar r_tl("tl", CmdTl), r_forms("forms", CmdForms);
 
 }  // namespace
 }  // namespace vf
